@@ -583,6 +583,10 @@ def _cb_key(item):
 
 def t_inc(v):
     CB.hit("transform")
+    return _inc_value(v)
+
+
+def _inc_value(v):
     if isinstance(v, bool) or v is None:
         return 1
     if isinstance(v, (int, float)):
@@ -645,7 +649,37 @@ def t_ident(v):
     return v
 
 
-TRANSFORMS = {"inc": t_inc, "bad": t_bad, "missing": t_missing, "raise": t_raise, "same": t_same, "ident": t_ident, "eqbad": t_eqbad}
+def t_shallow(v):
+    """a NEW container / instance that still holds the very elements it was given (`v[::-1]`, `{**d}`, `copy.copy(x)`):
+    what a transform is handed must therefore never be the receiver's live value"""
+    CB.hit("transform")
+    if isinstance(v, list) and type(v) is list:
+        return v[::-1]
+    if type(v) is dict:
+        return {**v}
+    if type(v) is set:
+        return set(v)
+    if hasattr(type(v), "__spec_class__") or isinstance(v, (list, dict, set)):
+        return copy.copy(v) if not hasattr(v, "_list") and not hasattr(v, "_dict") else v
+    return v
+
+
+def t_mutret(v):
+    """edits the value it is given and hands it back (same value function as `inc` for int collections)"""
+    CB.hit("transform")
+    if type(v) is list and all(isinstance(x, int) for x in v):
+        v.append(9)
+        return v
+    if type(v) is dict and all(isinstance(x, int) for x in v.values()):
+        v["t"] = 9
+        return v
+    if type(v) is set and all(isinstance(x, int) for x in v):
+        v.add(9)
+        return v
+    return _inc_value(v)
+
+
+TRANSFORMS = {"shallow": t_shallow, "mutret": t_mutret, "inc": t_inc, "bad": t_bad, "missing": t_missing, "raise": t_raise, "same": t_same, "ident": t_ident, "eqbad": t_eqbad}
 
 
 # ------------------------------------------------------------------------------------------------
